@@ -1046,6 +1046,9 @@ func caseStitchAt(im *image, path string, note string) {
 	if acmE != nil {
 		if o, ok := im.inImage(acmE.Addr, 32); ok {
 			old := int(binary.LittleEndian.Uint32(im.Bytes[o+24:])) * 4
+			if old > 2*len(im.Bytes) {
+				old = 0x80 // the entry does not point at an ACM header (an image edited in place, seq.go)
+			}
 			n := pick(0, old, old, old, old-4, old+4)
 			if n > 0 {
 				sf := uint32(n / 4)
